@@ -284,9 +284,14 @@ fn bx(p: P) -> Box<P> {
 fn pick_pair(rng: &mut Rng, env: &Env) -> (i64, i64) {
     let g = Gen { int: true, uint: false, ts_lit: false, now: false, others: vec![], atoms: vec![], vals: env.vals.clone(), extremes: false };
     let a = gen_value(rng, &g);
-    let b = match rng.below(4) {
+    let b = match rng.below(6) {
         0 => a,
         1 => a.saturating_add(rng.range_i64(0, 3)),
+        2 | 3 => {
+            // a window reaching from a to (near) the newest row
+            let hi = env.vals.last().copied().unwrap_or(a);
+            hi.saturating_sub(rng.range_i64(0, 2))
+        }
         _ => gen_value(rng, &g),
     };
     (a.min(b), a.max(b))
@@ -716,7 +721,7 @@ pub async fn run_corpus(model: &mut Model, report: &mut Report) {
 }
 
 pub async fn run_all(args: &Args, model: &mut Model, report: &mut Report) {
-    let (n_datasets, n_queries) = if args.thorough() { (60, 50) } else { (8, 30) };
+    let (n_datasets, n_queries) = if args.thorough() { (60, 50) } else { (12, 36) };
     run_corpus(model, report).await;
     for d in 0..n_datasets {
         run_dataset(args.seed, d, n_queries, None, model, report).await;
@@ -747,7 +752,8 @@ pub async fn replay(case: &serde_json::Value, model: &mut Model) -> i32 {
 /// concrete dataset (one row per chunk at and around the literals)?
 pub async fn oracle_for_unit(case: &UnitCase) -> bool {
     let fs = visible_filters(case);
-    if fs.is_empty() {
+    // a statement that never mentions the timestamp is outside the property (last-hour default by design)
+    if fs.is_empty() || !fs.iter().any(|f| f.mentions_ts()) {
         return false;
     }
     let mut lits = Vec::new();
